@@ -66,7 +66,9 @@ WITNESS_NS = {"kind": "surf",
 
 
 def gen(ctx):
-    return tr.gen()
+    files = tr.gen()
+    ctx.extra["source_sha256_16"] = dict(tr.LAST_SOURCE_SHA)
+    return files
 
 
 # ---------------------------------------------------------------------- case generators
